@@ -23,5 +23,6 @@ Emit == (case.len > 0 /\ Total(W0(case)) > 0) => LET w == W0(case) IN
      zero |-> Allowed(w, 0, 1), max |-> LastPosUpTo(w, Len(w)),
      mids |-> [k \in 1..K |-> Allowed(w, 2 * k - 1, 2 * K)],
      below |-> [i \in 1..Len(w) |-> IF i \in Thresholds(w) THEN LastPosUpTo(w, i) ELSE {}],
-     above |-> [i \in 1..Len(w) |-> IF i \in Thresholds(w) THEN FirstPosAfter(w, i) ELSE {}]])>>)
+     above |-> [i \in 1..Len(w) |-> IF i \in Thresholds(w) THEN FirstPosAfter(w, i) ELSE {}],
+     at |-> [i \in 1..Len(w) |-> IF i \in Thresholds(w) THEN Allowed(w, SumTo(w, i), Total(w)) ELSE {}]])>>)
 =============================================================================
